@@ -5,6 +5,8 @@ import Enc.Spec.Json.Tokens
 import Enc.Model.Json.EncString
 import Enc.Spec.Json.StdEnc
 import Enc.Spec.Json.Grammar
+import Enc.Model.Json.DecScalar
+import Enc.Spec.Json.StdDec
 /-! line-protocol handlers, area `json` (syntax layer). -/
 namespace Enc.Driver.Json
 open Enc
@@ -75,6 +77,20 @@ def handle (op : String) (args : List String) : Option (String × String × Stri
       | some ts => String.intercalate ";" (ts.map fun t => s!"{t.delim.toNat}/{toHex t.value}/{t.depth}/{t.index}/{boolStr t.isKey}")
       | none => "invalid"
     pure ("-", s, "")
+  -- json.decint <hex>: the document unmarshalled into a zero variable of each of the ten integer types
+  | "json.decint", [h] => do
+    let b ← fromHex h
+    let tys : List (Model.Json.ITy × Int × Int) := [(.i8, -128, 127), (.i16, -32768, 32767), (.i32, -2147483648, 2147483647),
+      (.i64, -9223372036854775808, 9223372036854775807), (.int, -9223372036854775808, 9223372036854775807),
+      (.u8, 0, 255), (.u16, 0, 65535), (.u32, 0, 4294967295), (.u64, 0, 18446744073709551615), (.uint, 0, 18446744073709551615)]
+    let sh : Option Int → String := fun | some v => toString v | none => "E"
+    let m := String.join (tys.map fun (t, _, _) => sh (Model.Json.unmarshalInt t b) ++ ",")
+    let sp := String.join (tys.map fun (t, lo, hi) => sh (Spec.Json.unmarshalInt t.signed lo hi b) ++ ",")
+    pure (m, sp, "")
+  | "json.decstr", [h] => do
+    let b ← fromHex h
+    let sh : Option Bytes → String := fun | some v => "ok:" ++ toHex v | none => "err"
+    pure (sh (Model.Json.unmarshalString b), sh (Spec.Json.unmarshalString b), "")
   | "json.encstr", [html, h] => do
     let s ← fromHex h
     pure (toHex (Model.Json.encodeString s (html == "1")), toHex (Spec.Json.appendString s (html == "1")), "")
